@@ -320,7 +320,14 @@ class Schema(dict, metaclass=LogicalMeta):
         context = self.__parser__.make_context(force_error=True)
         value = field.parse_value(value, context=context)
 
-        if field.property:
+        if unprovided(value):
+            # an invalid value under the 'exclude' policy and no default to take its place:
+            # the field is left out, as it is at initialization (never store the marker)
+            if not field.property:
+                if field.name in self:
+                    super().__delitem__(field.name)
+                self.__dict__.pop(field.attname, None)
+        elif field.property:
             if callable(setter):
                 # @property.fset
                 setter(self, value)
